@@ -11,11 +11,11 @@ D = "config.json programs/tables translated to SMT (z3 reals), walk model valida
 
 CHECKS = {
     "C01": ("K", "model_checking",
-            "execute_session's loop: for every line count 1..4 and every per-line outcome exactly one slot per line, status true (CBMC); stages C-E (token glue, parser ladder, interpreter) executed symbolically from MIR on every token list of length <= 4 (quick) / 5 (thorough) over {number, + - * / ( )}: no satisfiable panic path, every loop and recursion terminates; panic-freedom of the rule functions and DataItem kernels is decided by the engine-M parts of C05/C06/C09/C10/C11/C13/C14 (every panic path of the translated functions is a reachability query)",
-            "stage A (regex tokenisers, line splitting by the regex, load_from_json) is outside the claim; execute_text is a nondeterministic stub inside the loop harness; token lists are bounded in length and alphabet",
+            "line splitting: Session::set_text on every text of <= 4 lines with symbolic line contents and every LF/CRLF separator pattern (also mixed) stores exactly one part per line (MIR; Regex::split modelled for the constant pattern \\r\\n|\\n only); execute_session's loop: for every line count 1..4 and every per-line outcome exactly one slot per line, status true (CBMC); stages C-E (token glue, parser ladder, interpreter) executed symbolically from MIR on every token list of length <= 4 (quick) / 5 (thorough) over {number, + - * / ( )}: no satisfiable panic path, every loop and recursion terminates; panic-freedom of the rule functions and DataItem kernels is decided by the engine-M parts of C05/C06/C09/C10/C11/C13/C14 (every panic path of the translated functions is a reachability query)",
+            "stage A (regex tokenisers, load_from_json) is outside the claim; the regex engine itself is a contract model in the line-splitting part; execute_text is a nondeterministic stub inside the loop harness; token lists are bounded in length and alphabet",
             "solver-based: CBMC bounded model checking + z3 over MIR-derived path conditions"),
     "C02": ("K+M", "model_checking",
-            "the REAL token glue, parser ladder and interpreter, translated from MIR, on every token list of length <= 4 (quick) / 6 (thorough) over {number, + - * / ( )}: every well-formed expression evaluates to the value given by precedence, left associativity, parentheses, sign prefixes, juxtaposition = '+' and x/0 = 0 for ALL real operand values (shapes enumerated exhaustively, values symbolic, z3); plus NumberItem::calculate on all f64 pairs (CBMC)",
+            "the REAL token glue, parser ladder and interpreter, translated from MIR, on every well-formed token list of length <= 6, every token list of length <= 4 and a seeded sample of lengths 7-8 (quick) / every token list of length <= 8 (thorough) over {number, + - * / ( )}: every well-formed expression evaluates to the value given by precedence, left associativity, parentheses, sign prefixes, juxtaposition = '+' and x/0 = 0 for ALL real operand values (shapes enumerated exhaustively, values symbolic, z3); plus NumberItem::calculate on all f64 pairs (CBMC)",
             "literal spelling / spacing / k-M-G suffixes are stage A (regex) and outside; f64 rounding of individual operations outside (real relaxation); expression length bounded",
             "solver-based: z3 over SMT generated from the MIR of the real parser/interpreter + CBMC"),
     "C03": ("M", "translation_validation",
@@ -23,8 +23,8 @@ CHECKS = {
             "names are Text tokens (case folding and literal spelling are stage A); values are numbers; program length and name pool bounded",
             "solver-based: z3 over SMT generated from the MIR, program shapes enumerated exhaustively"),
     "C04": ("K+M", "model_checking",
-            "session re-use: set_text puts the cursor back and stores the new lines on every path (z3/path enumeration over its MIR); from that state execute_session returns exactly line_count slots for every n <= 4 and every per-line outcome (CBMC); calculator immutability: neither applying nor declining a rule writes into the calculator's own pattern tokens (rule_tokinizer from MIR, rule decision symbolic); execute() builds a fresh session (variables never leak: C03's programs run on explicit sessions)",
-            "line splitting itself is regex code; immutability is decided for the rule-rewriting stage (the only stage that holds references into the configuration's token objects) with one API rule",
+            "session re-use: set_text puts the cursor back and stores exactly the lines of the new text, one part per line for every LF/CRLF separator pattern of <= 4 lines (z3/path enumeration over its MIR); from that state execute_session returns exactly line_count slots for every n <= 4 and every per-line outcome (CBMC); calculator immutability: neither applying nor declining a rule writes into the calculator's own pattern tokens (rule_tokinizer from MIR, rule decision symbolic); execute() builds a fresh session (variables never leak: C03's programs run on explicit sessions)",
+            "Regex::split is a contract model for the constant line-separator pattern; immutability is decided for the rule-rewriting stage (the only stage that holds references into the configuration's token objects) with one API rule",
             "solver-based: MIR symbolic execution + CBMC"),
     "C05": ("M+K", "translation_validation",
             "all percentage formulas: number_on/of/off, find_numbers_percent, find_total_from_percent, X +- p% for numbers and money: on every path of the translated functions the result equals the textbook formula over the reals, zero divisors yield 0, money keeps its currency, no panic and no Err under the rule patterns; CBMC adds the result kinds on all f64",
